@@ -784,6 +784,7 @@ def _run_child(plan):
         device.uninstall()
         vfs.uninstall()
     violations = []
+    stats_extra = {}
 
     def add(cls, sig, detail):
         if not any(v["class"] == cls for v in violations):
@@ -852,7 +853,9 @@ def _run_child(plan):
                 except ValueError:
                     doc = None
                 if isinstance(doc, dict):
-                    defects = cm.row_shape_defects(doc, twin["testnet"], twin["account"], twin["interval"][0])
+                    defects = [d_ for d_ in cm.row_shape_defects(doc, None, None, None)
+                               if d_ in ("address-index-hardened", "purpose-not-hardened", "coin-not-hardened",
+                                         "account-not-hardened", "chain-hardened", "row-path-malformed")]
                     for dft in defects:
                         add("C20/row-shape/%s%s" % (dft, "/requested-end-above-2^31" if (
                                 dft == "address-index-hardened" and twin["interval"][1] > HARD) else ""),
@@ -883,14 +886,19 @@ def _run_child(plan):
                     doc = json.loads(served_text or "")
                 except ValueError:
                     doc = None
-                want = cm.ref_paranoia_filter(twin["full"])
-                if doc != json.loads(json.dumps(want)):
+                want = json.loads(json.dumps(cm.ref_paranoia_filter(twin["full"])))
+                defects = cm.public_data_defects(want, doc)
+                if defects:
                     add("C15/public-data-changed", {"clause": "public-data-equality"},
-                        dict(ctx, diff=_first_diff(json.dumps(doc, indent=1, sort_keys=True),
-                                                   json.dumps(want, indent=1, sort_keys=True))))
+                        dict(ctx, defects=defects[:6],
+                             diff=_first_diff(json.dumps(doc, indent=1, sort_keys=True),
+                                              json.dumps(want, indent=1, sort_keys=True))))
+                elif doc != want:
+                    stats_extra["paranoia_output_has_extra_public_looking_data"] = 1
         elif req["paranoia"] and status == 0 and req.get("help") is None:
             add("C15/served-but-api-refuses", {"clause": "no-twin", "api_exc": twin_exc}, ctx)
     outcome = "help" if req.get("help") else ("served" if status == 0 else "refused")
+    stats_extra = locals().get("stats_extra", {})
     gaps = inj.gaps_seen
     cells = {}
     for x in inj.fired:
@@ -913,6 +921,7 @@ def _run_child(plan):
         "env_vars_read": sorted(k_ for k_ in device.env_reads if k_ not in ENV_IGNORED and not k_.startswith("PYTHON")),
         "env_replay": int(bool(plan.get("env"))),
     }
+    stats.update(stats_extra)
     facts = {"status": status, "stdout_sha": core.digest(out), "stderr_sha": core.digest(err),
              "new_files": {p: core.digest(d.hex()) for p, d in new_files.items()}, "fired": inj.fired,
              "calls": vfs.log, "clobbered": clobbered}
@@ -1188,7 +1197,8 @@ class CliSim(Simulator):
         return base + ("Only --paranoia vectors. Oracle: no secret string of the unfiltered API result (mnemonic, password, "
                        "BIP85 values, account prv, WIFs; raw or JSON-escaped), no token decoding to a WIF/xprv payload, no "
                        "64-hex private scalar, no >=12-word run in stdout, any file written, or stderr of a served run; "
-                       "served output equals the reference (white-list) filter of the unfiltered API result.")
+                       "every public datum of the reference (white-list) filter of the unfiltered API result is present, in place and "
+                       "identical in the served output (extra harmless fields do not alarm).")
 
     def coverage_extra(self, prop, st):
         cells = st.get("fault_cells", {})
